@@ -9,6 +9,7 @@ Cases are JSON dictionaries with a 'kind':
 `run_<kind>(case)` executes the implementation and returns the Coq term of the case with the recorded results
 (checked by Model/CodecCases.v); `oracle(case)` is the property text evaluated on the implementation alone.
 """
+import copy
 import io
 import itertools
 
@@ -690,7 +691,14 @@ def impl_table(t):
 
 def impl_model_table(tm):
     from cirbo.core.logic import DontCare
-    return [[DontCare if x is None else bool(x) for x in row] for row in tm]
+    # every second don't-care is an EQUAL but NOT IDENTICAL object (what a pickle round trip of a model
+    # table produces: _DontCare.__eq__ accepts any instance); the API cannot tell them apart
+    k = [0]
+
+    def dc():
+        k[0] += 1
+        return DontCare if k[0] % 2 else copy.copy(DontCare)
+    return [[dc() if x is None else bool(x) for x in row] for row in tm]
 
 
 def model_table_term(tm) -> str:
